@@ -649,3 +649,113 @@ fn gwalk_oracle(c: &GWalk) -> Verdict {
 pub fn c09_chain() -> Box<dyn DynSub> {
     sub(Sub { name: "c09.chain", source: Source::Gen(gwalk_strategy, 300_000, 3_000_000), oracle: gwalk_oracle, known: no_known, hang_is_violation: false })
 }
+
+// ================================================================== C12: sets of epochs of mixed scales
+
+/// a set of epochs denoting instants at and around one TAI instant `x`, each held in its own scale
+#[derive(Clone, Debug, Serialize, Deserialize)]
+pub struct OrdSet {
+    pub x: i128,
+    /// (scale index into EXACT_SCALES, offset from x in ns)
+    pub items: Vec<(usize, i128)>,
+}
+
+const EXACT_SCALES: [usize; 7] = [S_TAI, S_TT, S_UTC, S_GPST, S_GST, S_BDT, S_QZSST];
+
+fn ordset_strategy() -> BS<OrdSet> {
+    let off = wunion(vec![
+        (4, Just(0i128).boxed()),
+        (3, prop::sample::select(vec![1i128, -1, 2, -2]).boxed()),
+        (2, prop::sample::select(vec![NS_S, -NS_S, NS_S - 1, 1 - NS_S, NS_S + 1, 2 * NS_S, -2 * NS_S]).boxed()),
+        (1, near_offset()),
+        (1, (any::<bool>(), log_mag(66)).prop_map(|(s, m)| if s { -m } else { m }).boxed()),
+    ]);
+    (tai_count_any(), prop::collection::vec((0usize..7, off), 2..=12)).prop_map(|(x, items)| OrdSet { x, items }).boxed()
+}
+
+fn ordset_oracle(c: &OrdSet) -> Verdict {
+    use std::cmp::Ordering;
+    // (instant on the TAI axis, epoch)
+    let mut v: Vec<(i128, Epoch)> = vec![];
+    let mut inside = false;
+    for &(si, off) in &c.items {
+        let s = EXACT_SCALES[si % 7];
+        let t = c.x + off;
+        let Some(cnt) = from_tai(s, t) else {
+            inside = true; // a UTC operand needs a UTC count of its own
+            continue;
+        };
+        if !(cnt > DMIN + 2 * NPC && cnt < DMAX - 2 * NPC) {
+            continue;
+        }
+        v.push((t, Epoch::from_duration(mk(cnt), SCALES[s])));
+    }
+    if v.len() < 2 {
+        return Verdict::Skip("fewer than two operands have a count");
+    }
+    let desc = || format!("{:?}", v.iter().map(|(t, e)| format!("{} {} (TAI {})", SCALE_NAMES[scale_index(e.time_scale)], count(e.duration), t)).collect::<Vec<_>>());
+    // all pairs, both operand orders
+    for i in 0..v.len() {
+        for j in 0..v.len() {
+            let (ta, a) = v[i];
+            let (tb, b) = v[j];
+            let want = ta.cmp(&tb);
+            let got = lib!(a.cmp(&b));
+            ensure!(got == want, "cmp of items {} and {} gives {:?}, want {:?}: {}", i, j, got, want, desc());
+            let eq = lib!(a == b);
+            ensure!(eq == (want == Ordering::Equal), "== of items {} and {} gives {}, instants {}: {}", i, j, eq, if want == Ordering::Equal { "equal" } else { "differ" }, desc());
+            let lt = lib!(a < b);
+            ensure!(lt == (want == Ordering::Less), "< of items {} and {} gives {}: {}", i, j, lt, desc());
+        }
+    }
+    // sorting the whole set orders the instants and keeps every item
+    let sorted = lib!({
+        let mut w: Vec<Epoch> = v.iter().map(|p| p.1).collect();
+        w.sort();
+        w
+    });
+    let mut model: Vec<i128> = v.iter().map(|p| p.0).collect();
+    model.sort();
+    let inst = |e: &Epoch| to_tai(scale_index(e.time_scale), count(e.duration));
+    let got: Vec<i128> = sorted.iter().map(inst).collect();
+    ensure!(got == model, "sort() orders the instants as {:?}, want {:?}: {}", got, model, desc());
+    let key = |e: &Epoch| (scale_index(e.time_scale), count(e.duration));
+    let (mut ka, mut kb): (Vec<_>, Vec<_>) = (sorted.iter().map(key).collect(), v.iter().map(|p| key(&p.1)).collect());
+    ka.sort();
+    kb.sort();
+    ensure!(ka == kb, "sort() does not return the items it was given: {}", desc());
+    // the extremes, and the number of distinct instants
+    let mx = lib!(v.iter().map(|p| p.1).max()).unwrap();
+    let mn = lib!(v.iter().map(|p| p.1).min()).unwrap();
+    ensure!(inst(&mx) == *model.last().unwrap() && inst(&mn) == model[0], "max() / min() of the set denote {} / {}, want {} / {}: {}", inst(&mx), inst(&mn), model.last().unwrap(), model[0], desc());
+    let distinct = lib!({
+        let mut w = sorted.clone();
+        w.dedup();
+        w.len()
+    });
+    let mut md = model.clone();
+    md.dedup();
+    ensure!(distinct == md.len(), "after sort() and dedup() {} items are left, {} distinct instants: {}", distinct, md.len(), desc());
+    // every item is found again by binary search at a position holding the same instant
+    for (t, e) in &v {
+        match lib!(sorted.binary_search(e)) {
+            Ok(k) => ensure!(inst(&sorted[k]) == *t, "binary_search finds another instant for TAI {}: {}", t, desc()),
+            Err(_) => fail!("binary_search does not find the item at TAI {} in the sorted set: {}", t, desc()),
+        }
+    }
+    let scales: std::collections::BTreeSet<usize> = v.iter().map(|p| scale_index(p.1.time_scale)).collect();
+    let class = if inside {
+        "set-around-inserted-second"
+    } else if md.len() < v.len() && scales.len() > 1 {
+        "same-instant-in-several-scales"
+    } else if scales.len() > 1 {
+        "mixed-scales"
+    } else {
+        "plain"
+    };
+    Verdict::Pass(class, v.len() >= 3 && class != "plain")
+}
+
+pub fn c12_chain() -> Box<dyn DynSub> {
+    sub(Sub { name: "c12.sets", source: Source::Gen(ordset_strategy, 300_000, 3_000_000), oracle: ordset_oracle, known: no_known, hang_is_violation: false })
+}
